@@ -4,12 +4,9 @@
 //!   ohv replay <ID> <path>                        re-execute a stored case without proptest
 //!   ohv worker / exec-case                        internal
 
-mod core;
-mod harness;
-mod oracle;
-mod props;
-
-use crate::core::{supervisor, worker, Tier};
+use engine::core::{supervisor, worker, Tier};
+use engine::props;
+use proptest::strategy::ValueTree;
 
 macro_rules! dispatch {
     ($id:expr, $f:ident ( $($arg:expr),* )) => {
@@ -83,6 +80,38 @@ fn main() {
             let tier = args.get(3).and_then(|s| Tier::parse(s)).unwrap_or(Tier::Quick);
             use supervisor::exec_case_main;
             dispatch!(id, exec_case_main(tier))
+        }
+        "corpus" => {
+            // ohv corpus <c02_bytes|c08_bytes> <n> <dir>: seed files for the byte-level fuzz targets, taken from the
+            // properties' own generators (deterministic: VERIF_SEED)
+            use engine::core::{new_tree, Property};
+            let n: u64 = args[3].parse().expect("n");
+            let dir = std::path::PathBuf::from(&args[4]);
+            std::fs::create_dir_all(&dir).expect("corpus dir");
+            match args[2].as_str() {
+                "c02_bytes" => {
+                    let p = props::c02::C02::new(Tier::Quick);
+                    let st = p.strategy(Tier::Quick);
+                    for i in 0..n {
+                        let c = new_tree::<props::c02::C02>(&st, seed, i).current();
+                        std::fs::write(dir.join(format!("gen-{i:04}")), &c.bytes.0).unwrap();
+                    }
+                }
+                "c08_bytes" => {
+                    let p = props::c08::C08::new(Tier::Quick);
+                    let st = p.strategy(Tier::Quick);
+                    for i in 0..n {
+                        let c = new_tree::<props::c08::C08>(&st, seed, i).current();
+                        let mut v = vec![c.dec, (c.ty & 0xff) as u8, (c.ty >> 8) as u8];
+                        v.extend_from_slice(&c.bytes.0);
+                        std::fs::write(dir.join(format!("gen-{i:04}")), v).unwrap();
+                    }
+                }
+                other => {
+                    eprintln!("no corpus generator for {other}");
+                    std::process::exit(2)
+                }
+            }
         }
         "c18-child" => props::c18::child_main(args[2].parse().expect("port")),
         "replay" => {
